@@ -9,14 +9,16 @@ import ast
 
 from .model import ClassInfo, FuncInfo, norm, head, walk_no_nested
 from .resolve import Ctx, Target
+from .q import const as _const, NotConst as _NotConst
 
 
 class Item(object):
     """One escaping exception class with its witness chain and origin."""
-    __slots__ = ('exc', 'origin', 'chain', 'site_func', 'site_text', 'entry')
+    __slots__ = ('exc', 'origin', 'chain', 'site_func', 'site_text', 'entry', 'node')
 
-    def __init__(self, exc, origin, chain, site_func, site_text, entry=None):
+    def __init__(self, exc, origin, chain, site_func, site_text, entry=None, node=None):
         self.entry = entry          # statement of the entry function through which it escapes (split_entry)
+        self.node = node            # ast node of the raise site (not part of the identity)
         self.exc = exc
         self.origin = origin        # explicit | assert | catalog | implicit | boundary | unknown
         self.chain = chain          # list of 'file:line func: construct'
@@ -24,7 +26,7 @@ class Item(object):
         self.site_text = site_text  # normalised construct at the raise site
 
     def via(self, frame):
-        return Item(self.exc, self.origin, [frame] + self.chain[:11], self.site_func, self.site_text, self.entry)
+        return Item(self.exc, self.origin, [frame] + self.chain[:11], self.site_func, self.site_text, self.entry, self.node)
 
     def ident(self):
         return (self.exc, self.site_func, self.site_text, self.entry)
@@ -58,6 +60,7 @@ class Escape(object):
         if catalog:
             self.catalog.update(catalog)
         self.memo = {}
+        self.memo_aux = {}
         self.inprogress = set()
         self.cyclic = False
         self.analysed = set()
@@ -98,8 +101,14 @@ class Escape(object):
             return self._stmt(stmt, env)
         return self._expr(stmt, env)
 
-    def _esc(self, func, ctx, depth):
-        k = (func.qname, ctx.key() if ctx else None)
+    def _esc(self, func, ctx, depth, consts=None):
+        consts = consts or {}
+        try:
+            ck = frozenset(consts.items())
+            hash(ck)
+        except TypeError:
+            consts, ck = {}, frozenset()
+        k = (func.qname, ctx.key() if ctx else None, ck)
         if k in self._done:
             return self.memo[k]
         if k in self.inprogress or depth > self.max_depth:
@@ -108,7 +117,7 @@ class Escape(object):
         self.inprogress.add(k)
         self.analysed.add(k)
         try:
-            env = {'func': func, 'ctx': ctx, 'depth': depth, 'caught': None, 'caught_name': None}
+            env = {'func': func, 'ctx': ctx, 'depth': depth, 'caught': None, 'caught_name': None, 'consts': consts}
             res = self._block(func.node.body, env)
             if self.implicit is not None:
                 for node, exc, text in self.implicit(func, ctx):
@@ -126,6 +135,61 @@ class Escape(object):
         return merged
 
     # ------------------------------------------------------------------ helpers
+    def _reassigned(self, func, before_line):
+        """Names stored anywhere inside a loop or textually before `before_line` (flow-insensitive but order aware)."""
+        k = ('reassigned', func.qname)
+        if k not in self.memo_aux:
+            stores = []
+            for n in walk_no_nested(func.node):
+                if isinstance(n, ast.Name) and isinstance(n.ctx, ast.Store):
+                    in_loop = False
+                    p = getattr(n, '_parent', None)
+                    while p is not None and p is not func.node:
+                        if isinstance(p, (ast.For, ast.While)):
+                            in_loop = True
+                        p = getattr(p, '_parent', None)
+                    stores.append((n.id, n.lineno, in_loop))
+            self.memo_aux[k] = stores
+        return set(n for n, ln, lp in self.memo_aux[k] if lp or ln < before_line)
+
+    def _call_consts(self, call, callee):
+        """Callee parameters bound to literals by this call (incl. literal defaults of omitted parameters)."""
+        a = callee.node.args
+        params = [x.arg for x in a.args]
+        if callee.cls is not None and callee.kind not in ('staticmethod',) and params:
+            params = params[1:]
+        out = {}
+        if any(isinstance(x, ast.Starred) for x in call.args) or any(k.arg is None for k in call.keywords):
+            return out
+        given = set()
+        for p_, arg in zip(params, call.args):
+            given.add(p_)
+            try:
+                v = _const(arg)
+                if isinstance(v, (int, str, bytes, bool, type(None))):
+                    out[p_] = v
+            except Exception:
+                pass
+        for kw in call.keywords:
+            given.add(kw.arg)
+            try:
+                v = _const(kw.value)
+                if isinstance(v, (int, str, bytes, bool, type(None))):
+                    out[kw.arg] = v
+            except Exception:
+                pass
+        defaults = a.defaults
+        dparams = [x.arg for x in a.args][len(a.args) - len(defaults):]
+        for p_, d in zip(dparams, defaults):
+            if p_ not in given and p_ in params:
+                try:
+                    v = _const(d)
+                    if isinstance(v, (int, str, bytes, bool, type(None))):
+                        out[p_] = v
+                except Exception:
+                    pass
+        return out
+
     def _frame(self, func, node, text=None):
         return '%s %s: %s' % (func.loc(node), func.qname.replace('nfc.', '', 1), text or head(node))
 
@@ -186,8 +250,21 @@ class Escape(object):
             return {}
         if isinstance(st, ast.If):
             out = self._expr(st.test, env)
-            self._merge(out, self._block(st.body, env))
-            self._merge(out, self._block(st.orelse, env))
+            decided = None
+            cs = env.get('consts')
+            if cs:
+                # parameters bound to literals at the call site decide argument guards
+                names = set(x.id for x in ast.walk(st.test) if isinstance(x, ast.Name)) - \
+                    {'len', 'type', 'int', 'str', 'bytes', 'bytearray', 'isinstance', 'bool', 'min', 'max'}
+                if names and names <= set(cs) and not (names & self._reassigned(func, st.lineno)):
+                    try:
+                        decided = bool(_const(st.test, cs))
+                    except Exception:
+                        decided = None
+            if decided is not False:
+                self._merge(out, self._block(st.body, env))
+            if decided is not True:
+                self._merge(out, self._block(st.orelse, env))
             return out
         if isinstance(st, ast.While):
             out = self._expr(st.test, env)
@@ -231,7 +308,7 @@ class Escape(object):
             out = self._expr(st.test, env)
             if self.asserts:
                 text = head(st)
-                it = Item('AssertionError', 'assert', [self._frame(func, st, text)], func.qname, text)
+                it = Item('AssertionError', 'assert', [self._frame(func, st, text)], func.qname, text, node=st)
                 out.setdefault(it.ident(), it)
             return out
         # simple statements: every expression inside
@@ -245,7 +322,7 @@ class Escape(object):
             for child in ast.iter_child_nodes(st):
                 if isinstance(child, ast.expr):
                     for it in self._expr(child, env).values():
-                        it2 = Item(it.exc, it.origin, it.chain, it.site_func, it.site_text, tag)
+                        it2 = Item(it.exc, it.origin, it.chain, it.site_func, it.site_text, tag, it.node)
                         out.setdefault(it2.ident(), it2)
         # attribute stores on typed receivers trigger property setters
         if isinstance(st, (ast.Assign, ast.AugAssign)):
@@ -276,7 +353,7 @@ class Escape(object):
         text = head(st)
         if r is not None and r[0] == 'class':
             k = r[1].qname
-            it0 = Item(k, 'explicit', [self._frame(func, st, text)], func.qname, text)
+            it0 = Item(k, 'explicit', [self._frame(func, st, text)], func.qname, text, node=st)
             out.setdefault(it0.ident(), it0)
             # constructor may raise too
             if isinstance(exc, ast.Call):
@@ -287,7 +364,7 @@ class Escape(object):
                         out.setdefault(e, it.via(self._frame(func, st, text)))
         elif r is not None and r[0] == 'ext':
             k = self.p.exc_key(r)
-            it0 = Item(k, 'explicit', [self._frame(func, st, text)], func.qname, text)
+            it0 = Item(k, 'explicit', [self._frame(func, st, text)], func.qname, text, node=st)
             out.setdefault(it0.ident(), it0)
         elif isinstance(exc, ast.Call) and isinstance(cls_expr, ast.Attribute) and \
                 self._exc_class_of_factory(func, cls_expr, env) is not None:
@@ -416,7 +493,7 @@ class Escape(object):
                     out.setdefault(e, it.via(fr))
         return out
 
-    def _target_esc(self, t, env):
+    def _target_esc(self, t, env, consts=None):
         if t.func is None:
             return {}
         q = t.func.qname
@@ -428,7 +505,7 @@ class Escape(object):
                 it0 = Item(k, 'boundary', ['<interface %s may raise %s>' % (q, k)], q, 'interface summary')
                 out[it0.ident()] = it0
             return out
-        return self._esc(t.func, t.ctx, env['depth'] + 1)
+        return self._esc(t.func, t.ctx, env['depth'] + 1, consts)
 
     def _call(self, call, env):
         func, ctx = env['func'], env['ctx']
@@ -455,7 +532,7 @@ class Escape(object):
                         it0 = Item(k, 'catalog', [self._frame(func, call, text)], func.qname, text)
                         out.setdefault(it0.ident(), it0)
                 continue
-            sub = self._target_esc(t, env)
+            sub = self._target_esc(t, env, self._call_consts(call, t.func) if t.func is not None and t.via != 'init' else None)
             if sub:
                 fr = fr or self._frame(func, call, norm(call))
                 for e, it in sub.items():
